@@ -21,11 +21,32 @@ type shape struct {
 	p []int
 }
 
+// allShapes: every shape with <= maxN blocks; a negative maxN means: every shape with <= -maxN-1 blocks plus
+// the shapes with -maxN blocks in which some block has at least three children (sibling orphans).
 func allShapes(maxN int) []shape {
 	var out []shape
-	for n := 1; n <= maxN; n++ {
+	full := maxN
+	if maxN < 0 {
+		full = -maxN - 1
+	}
+	for n := 1; n <= full; n++ {
 		for _, p := range shapes.Trees(n, 4) {
 			out = append(out, shape{n, p})
+		}
+	}
+	if maxN < 0 {
+		for _, p := range shapes.Trees(-maxN, 4) {
+			cnt := map[int]int{}
+			wide := false
+			for _, q := range p {
+				cnt[q]++
+				if cnt[q] >= 3 {
+					wide = true
+				}
+			}
+			if wide {
+				out = append(out, shape{-maxN, p})
+			}
 		}
 	}
 	return out
@@ -197,7 +218,12 @@ func main() {
 	run.Set("traces_validated_against_impl", st.Checks)
 	run.Set("tree_shapes", len(ss))
 	run.Set("delivery_orders", len(items))
-	run.Set("max_blocks", maxN)
+	if maxN < 0 {
+		run.Set("max_blocks", -maxN)
+		run.Set("shape_restriction", "all shapes up to 5 blocks; 6-block shapes only where a block has >= 3 children")
+	} else {
+		run.Set("max_blocks", maxN)
+	}
 	run.Set("rule", "every non-isomorphic rooted block tree with <= max_blocks blocks and branching <= 4, every permutation of delivery; transitions = block deliveries; states = distinct (shape, final best block); each delivery is followed by the stored/orphan invariant over all delivered blocks and each run by comparison with the in-order run")
 	run.Assume("blocks are valid empty blocks on the lab network (E=2, 4 federation validators); ordering effects of transactions are covered by C10/C13")
 	run.Finish()
